@@ -40,7 +40,8 @@ Print Assumptions C17_oto_refines.
 Example C17_oto_refines_inhabited :
   no_bad_index (oto_trace [] [HNew false [(0,1);(2,1);(3,4)]; HOp 0 true (OSet 4 0); HCopy 0 true;
                               HUpdFrom true 1 false 0 false; HOp 1 true OPopitem; HNew true [(1,1);(2,1)];
-                              HOp 0 false (OSet 3 900); HOp 0 true (OUpdate [(7,8);(901,2)]); HNew false [(5,900);(5,6)]]).
+                              HOp 0 false (OSet 3 900); HOp 0 true (OUpdate [(7,8);(901,2)]); HNew false [(5,900);(5,6)];
+                              HDeepcopy 0 true; HEq 0 false 3 true; HFromkeys [1;2;1] 7]).
 Proof. repeat constructor; simpl; discriminate. Qed.
 
 (* ManyToMany: after ANY history of add/remove/[]=/del/replace/update/
